@@ -1092,6 +1092,9 @@ fn field_attrs(f: &FieldS, style: usize) -> String {
         FTy::NilU8FnsD => "#[cbor(is_nil = \"derive_rt::nilu8::is_nil\")] #[cbor(encode_with = \"derive_rt::nilu8::encode\")] #[cbor(decode_with = \"derive_rt::nilu8::decode\", nil = \"derive_rt::nilu8::nil\", cbor_len = \"derive_rt::nilu8::cbor_len\")] ",
         _ => "",
     };
+    // a nested type with a lifetime only compiles when its field is marked as borrowing: those always use the
+    // plain #[b(i)] spelling, so that the spelling dimension cannot turn into a compile failure of this family
+    let style = if f.borrow && matches!(f.ty, FTy::Nested(_) | FTy::OptNested(_)) { 0 } else { style };
     match style {
         // #[n(i)] first, every other attribute in its own #[cbor(..)]
         0 => format!("#[{}({})] {}{}", idx_kw, f.idx, parts.iter().map(|p| format!("#[cbor({})] ", p)).collect::<String>(), custom),
